@@ -19,13 +19,20 @@ fn case(rng: &mut Rng, idx: u64, rec: &mut Rec) {
     let n = pick_n(rng, idx);
     let use_call = rng.chance(1, 4);
     // sender variants: explicit Host, despite-method GET, and (one case in four) the Expect routes
-    let mut variant: u16 = rng.below(4) as u16 | [0u16, 0, 0, 8, 16, 0, 0, 0][rng.below(8) as usize] | (rng.below(4) as u16) << 5;
+    let mut variant: u32 = rng.below(4) as u32 | [0u32, 0, 0, 8, 16, 0, 0, 0][rng.below(8) as usize] | (rng.below(4) as u32) << 5;
     // one more head write after completion; an HTTP/1.0 request; a flow produced by a redirect whose
     // original was chunked (the content-length added in Prepare is this body's own framing)
-    variant |= [0u16, 0, 256, 512, 4096, 0, 2048, 0][rng.below(8) as usize];
+    variant |= [0u32, 0, 256, 512, 4096, 0, 2048, 0][rng.below(8) as usize];
     if rng.chance(1, 6) && variant & (2048 | 4096) == 0 {
         variant |= 16384;
         rec.cov("sender-route/with-a-coding-that-is-not-chunked");
+    }
+    if rng.chance(1, 5) {
+        // the length is written with leading zeros
+        variant |= 32768;
+        if variant & (2048 | 4096) == 0 {
+            rec.cov("sender-route/length-with-leading-zeros");
+        }
     }
     if rng.chance(1, 4) {
         variant |= 8192;
